@@ -452,6 +452,10 @@ def mk_point(ex, F, idx, cls, z_one=False, order=None, generator=False):
             F.assume_zero(Y.res)
         else:
             F.assume_nonzero(Y.res)
+    if cls in ("fin",):
+        Y.iv = (lin(0, 1), lin(1, -1))
+    elif cls in ("tor2", "Oy"):
+        Y.iv = iv_const(0)
     if cls in ("fin", "tor2"):
         mark_on_curve(F, X, Y, Z)
         F.assume_zero(FD.on_curve((X.res, Y.res, Z.res), F.a.res, F.b.res))
@@ -469,8 +473,10 @@ def mk_affine(ex, F, idx, cls="fin"):
     y = F.atom("y%d" % idx, "coord")
     if cls == "tor2":
         F.assume_zero(y.res)
+        y.iv = iv_const(0)
     else:
         F.assume_nonzero(y.res)
+        y.iv = (lin(0, 1), lin(1, -1))
     mark_on_curve(F, x, y, F.const(1))
     F.assume_zero(FD.on_curve((x.res, y.res, sp.Integer(1)), F.a.res, F.b.res))
     obj = SObj(ex.convert(real_ec().Point), {"_Point__curve": curve, "_Point__x": x, "_Point__y": y, "_Point__order": None})
@@ -1077,3 +1083,168 @@ for _n in ("x", "y", "scale", "__neg__", "__eq__", "double", "__add__", "to_affi
     _c.check_concrete = _obj_check.__get__(_c)
     _c.positional = _obj_positional.__get__(_c)
     _c.domain = _obj_domain(_n in ("__eq__", "__add__"))
+
+
+# ===============================================================================================================
+# legacy affine Point class (C06): same textbook law, canonical coordinates by construction
+def _aff_cases(two):
+    out = []
+    for c1 in ("fin", "tor2"):
+        if not two:
+            out.append((c1, (lambda c1=c1: lambda ex, F: {"self": mk_affine(ex, F, 1, c1)})()))
+            continue
+        out.append(("%s+INFINITY" % c1, (lambda c1=c1: lambda ex, F: {"self": mk_affine(ex, F, 1, c1), "other": infinity(ex)})()))
+        out.append(("INFINITY+%s" % c1, (lambda c1=c1: lambda ex, F: {"self": infinity(ex), "other": mk_affine(ex, F, 1, c1)})()))
+        for c2 in ("fin", "tor2"):
+            out.append(("%s+%s" % (c1, c2), (lambda c1=c1, c2=c2: lambda ex, F: {"self": mk_affine(ex, F, 1, c1), "other": mk_affine(ex, F, 2, c2)})()))
+    if two:
+        out.append(("fin+self", lambda ex, F: (lambda o: {"self": o, "other": o})(mk_affine(ex, F, 1, "fin"))))
+        out.append(("fin+foreign", lambda ex, F: {"self": mk_affine(ex, F, 1, "fin"), "other": 7}))
+        out.append(("INFINITY+INFINITY", lambda ex, F: (mk_curve(ex, F), {"self": infinity(ex), "other": infinity(ex)})[1]))
+    else:
+        out.append(("INFINITY", lambda ex, F: (mk_curve(ex, F), {"self": infinity(ex)})[1]))
+    return out
+
+
+def _aff_result_post(expected):
+    def post(ex, F, env, out, snap):
+        if "other" in env and not isinstance(env["other"], SObj):
+            yield "foreign-type", out[0] == "ret" and out[1] is NOTIMPL, "must return NotImplemented for a foreign operand"
+            return
+        if out[0] != "ret":
+            yield "no-escape", False, "raised %s at line %s" % (out[1], out[2])
+            return
+        r = out[1]
+        ok = is_affine(r)
+        yield "result-type", ok, "result is %r" % (r,)
+        if not ok:
+            return
+        exp = expected(ex, F, env)
+        yield "group-law", *same_view(F, view_of(ex, F, r), exp)
+        if r is not infinity(ex):
+            yield "canonical-range", strong_range(r.fields["_Point__x"]) and strong_range(r.fields["_Point__y"]), "coordinates not in [0, p-1]"
+        yield "frame", *frame_ok(env, snap, set())
+    return post
+
+
+def _aff_add_expected(ex, F, env):
+    return add_views(F, view_of(ex, F, env["self"]), view_of(ex, F, env["other"]), F.a.res)
+
+
+def _aff_double_expected(ex, F, env):
+    v = view_of(ex, F, env["self"])
+    return add_views(F, v, v, F.a.res)
+
+
+def _aff_neg_expected(ex, F, env):
+    return neg_view(view_of(ex, F, env["self"]))
+
+
+method("__add__", _aff_cases(True), _aff_result_post(_aff_add_expected), cls="Point")
+def _aff_from_view(ex, F, v, curve):
+    if v[0] == "O":
+        return infinity(ex)
+    x = FInt(F, v[1], RED)
+    y = FInt(F, v[2], RED)
+    mark_on_curve(F, x, y, F.const(1))
+    return SObj(ex.convert(real_ec().Point), {"_Point__curve": curve, "_Point__x": x, "_Point__y": y, "_Point__order": None})
+
+
+def _aff_double_apply(ex, F, vals, line):
+    o = vals["self"]
+    v = view_of(ex, F, o)
+    return _aff_from_view(ex, F, add_views(F, v, v, F.a.res), o.fields["_Point__curve"])
+
+
+method("double", _aff_cases(False), _aff_result_post(_aff_double_expected), _aff_double_apply, cls="Point")
+method("__neg__", _aff_cases(False), _aff_result_post(_aff_neg_expected), cls="Point")
+
+
+def _aff_eq_cases():
+    out = []
+    for c1 in ("fin", "tor2"):
+        out.append(("%s==INFINITY" % c1, (lambda c1=c1: lambda ex, F: {"self": mk_affine(ex, F, 1, c1), "other": infinity(ex)})()))
+        out.append(("INFINITY==%s" % c1, (lambda c1=c1: lambda ex, F: {"self": infinity(ex), "other": mk_affine(ex, F, 1, c1)})()))
+        for c2 in ("fin", "tor2"):
+            out.append(("%s==%s" % (c1, c2), (lambda c1=c1, c2=c2: lambda ex, F: {"self": mk_affine(ex, F, 1, c1), "other": mk_affine(ex, F, 2, c2)})()))
+    out.append(("fin==self", lambda ex, F: (lambda o: {"self": o, "other": o})(mk_affine(ex, F, 1, "fin"))))
+    out.append(("INFINITY==INFINITY", lambda ex, F: (mk_curve(ex, F), {"self": infinity(ex), "other": infinity(ex)})[1]))
+    out.append(("fin==foreign", lambda ex, F: {"self": mk_affine(ex, F, 1, "fin"), "other": 5}))
+    return out
+
+
+method("__eq__", _aff_eq_cases(), _eq_post, _eq_apply, cls="Point")
+
+
+# run-time checks of the legacy Point contracts
+def _aff_obj(curve, spec, ns):
+    if spec == "INF":
+        return ns["ecdsa"].ellipticcurve.INFINITY
+    return eval("ecdsa.ellipticcurve.Point(%s, %d, %d)" % (_curve_expr(*curve), spec[1], spec[2]), ns)
+
+
+def _aff_check(self, args, fn=None):
+    import ecdsa.ellipticcurve as ecm
+    name = self.qual.split(".")[-1]
+    curve = args["curve"]
+    p, a, b = curve
+    ns = {"ecdsa": __import__("ecdsa")}
+    v1, c1 = _tb(curve, args["P1"])
+    me = _aff_obj(curve, args["P1"], ns)
+    c2 = None
+    if name in ("__add__", "__eq__"):
+        v2, c2 = _tb(curve, args["P2"])
+        other = _aff_obj(curve, args["P2"], ns)
+    tor2 = "tor2" in (c1, c2)
+    viol = []
+
+    def V(label, observed, force=False):
+        viol.append(dict(obligation="%s#%s%s" % (self.short, label, "@tor2" if (tor2 or force) else ""), observed=observed))
+    try:
+        if name == "__eq__":
+            r = me.__eq__(other)
+            if r is not (v1 == v2):
+                V("view-equality", "returned %r" % (r,))
+            return viol
+        if name == "__add__":
+            r, exp = me + other, EC.add(v1, v2, p, a)
+        elif name == "double":
+            r, exp = me.double(), EC.add(v1, v1, p, a)
+        else:
+            r, exp = -me, EC.neg(v1, p)
+        t2 = exp is not EC.O and exp[1] % p == 0
+        got = EC.O if r is ecm.INFINITY else (r.x() % p, r.y() % p)
+        if got != exp:
+            V("group-law", "result denotes %r, expected %r" % (got, exp), t2)
+        if r is not ecm.INFINITY and not (0 <= r.x() < p and 0 <= r.y() < p):
+            V("canonical-range", "coordinates %r" % ((r.x(), r.y()),), t2)
+    except Exception as e:
+        V("no-escape", "raised %s: %s" % (type(e).__name__, e))
+    return viol
+
+
+def _aff_positional(self, args):
+    curve = args["curve"]
+    def rx(s):
+        return Recipe("ecdsa.ellipticcurve.INFINITY" if s == "INF" else "ecdsa.ellipticcurve.Point(%s, %d, %d)" % (_curve_expr(*curve), s[1], s[2]))
+    return [rx(args["P1"])] + ([rx(args["P2"])] if "P2" in args else [])
+
+
+def _aff_domain(two):
+    def dom(tier, seed):
+        for (p, a, b) in EC.toy_curves(11 if tier == "quick" else 19):
+            pts = ["INF"] + [("affine", x, y) for (x, y) in EC.points(p, a, b)]
+            for r1 in pts:
+                if not two:
+                    yield dict(curve=(p, a, b), P1=r1)
+                else:
+                    for r2 in pts:
+                        yield dict(curve=(p, a, b), P1=r1, P2=r2)
+    return dom
+
+
+for _n in ("__add__", "double", "__neg__", "__eq__"):
+    _c = REGISTRY[EC_MOD + "Point." + _n]
+    _c.check_concrete = _aff_check.__get__(_c)
+    _c.positional = _aff_positional.__get__(_c)
+    _c.domain = _aff_domain(_n in ("__add__", "__eq__"))
